@@ -23,6 +23,10 @@ func c15(p *core.Program, r *core.Report) {
 	c15IteratorSides(p, r)
 	r.Rule("R6", "Set marks existence first: in executeSet every call of executeSetBitField or executeSetValueField lies on a path that called SetBit on the index's existence field, or found that field nil")
 	c15SetMarksExistence(p, r)
+	r.Rule("R7", "every shard is evaluated: a map function literal that an executor method hands to mapReduce and that evaluates per shard (calls an executor method named *Shard) returns with a nil error only after that call; no shard of the request is skipped on a guess about where data lives")
+	c15EveryShardIsEvaluated(p, r)
+	r.Rule("R8", "a segment copy stays in its shard: a fragment method that puts a container into <fragment>.storage at a key computed with `%` from a source key has compared that key with an upper bound on every path to the Put since the key was assigned")
+	c15SegmentCopyStaysInShard(p, r)
 	r.NotDecided = "equality of query answers with the set-algebra model for generated data (value level); the roaring kernels (C01); Row.Merge/Union/... themselves (C03 decides isolation only)"
 	pk := p.Pkg("")
 	if pk == nil {
